@@ -59,6 +59,7 @@ def cases(tier, seed):
     yield dict(kind='array', tier=tier)
     yield dict(kind='partial', tier=tier)
     yield dict(kind='nonfinite', tier=tier)
+    yield dict(kind='shared-and-single', tier=tier)
     for n in ((65537, 150001) if tier == 'quick' else (65535, 65536, 65537, 100001, 131073, 150001, 1048577)):
         yield dict(kind='big', n=n, tier=tier)
     for sub in DEGENERATE:
@@ -299,6 +300,51 @@ def run_case(c):
                         else:
                             res.ok('nonfinite', True)
             res.sample({'curves': 'log, 1/x, sqrt, 2 log10', 'events': 'zeros and negative values in every channel'})
+        elif c['kind'] == 'shared-and-single':
+            # (a) one curve OBJECT listed for several channels (one calibration shared by two detectors): every listed channel is converted once
+            # (b) events held in single precision: each converted value is the curve evaluated on that value in double precision
+            f_ = lambda x: 1.1 * x + 0.3
+            g_ = lambda x: np.sign(x) * np.exp(2.0) * np.abs(x) ** 0.95
+            arr64 = np.array(base, dtype=np.float64) + 0.37
+            conts = [('array', arr64, False), ('float32 array', arr64.astype(np.float32), False)]
+            lay32 = dict(datatype='F', bits=[32] * 4, ranges=[1024] * 4, byteord='1,2,3,4',
+                         events=[[fcsgen.float_bits(float(np.float32(x)), 'F') for x in r] for r in arr64.tolist()])
+            p32 = os.path.join(scratch(), 'c06_f32.fcs')
+            buf, _ = fcsgen.build(lay32)
+            with open(p32, 'wb') as fh:
+                fh.write(buf)
+            conts += [('float32 sample', FlowCal.io.FCSData(p32), True), ('sample', d, True)]
+            for label, data, named in conts:
+                vals = np.array(np.asarray(data), dtype=np.float64)          # exact upcast of whatever the container holds
+                for scl, scch, reqs in (([f_, g_, f_], [0, 1, 2], [None, [2], [0, 2], [2, 1, 0], 2]),
+                                        ([g_, g_], [3, 1], [None, [1], [3, 1], 3]),
+                                        ([f_, f_, f_, f_], [0, 1, 2, 3], [None, [3, 0]])):
+                    fn_of = dict(zip(scch, scl))
+                    ch_arg = [NAMES[j] for j in scch] if named else list(scch)
+                    for req in reqs:
+                        cols = list(scch) if req is None else ([req] if isinstance(req, int) else list(req))
+                        rq = req if (req is None or not named) else ([NAMES[j] for j in req] if isinstance(req, list) else NAMES[req])
+                        what = 'to_mef(%s, channels=%r, %d curves (%s) for %r)' % (label, rq, len(scl), 'one object listed %d times' % max(scl.count(x) for x in scl), ch_arg)
+                        one = dict(c)
+                        try:
+                            t = np.asarray(to_mef(data, rq, list(scl), ch_arg))
+                        except Exception as e:
+                            res.violation('shared:raises:%s' % type(e).__name__, '%s raised %s: %s' % (what, type(e).__name__, e), one)
+                            continue
+                        bad = None
+                        if t.dtype != np.float64 or t.shape != vals.shape:
+                            bad = 'returned dtype %s shape %s' % (t.dtype, t.shape)
+                        else:
+                            for j in range(4):
+                                want = np.asarray(fn_of[j](vals[:, j]), dtype=np.float64) if j in cols else vals[:, j]
+                                if t[:, j].tobytes() != want.tobytes():
+                                    bad = 'channel %d is %s..., %s' % (j, t[:2, j].tolist(), ('its curve evaluated on the (double precision) values gives %s...' % want[:2].tolist()) if j in cols else 'it was not requested')
+                                    break
+                        if bad:
+                            res.violation('shared:%s' % ('float32' if 'float32' in label else 'value'), '%s: %s' % (what, bad), one)
+                        else:
+                            res.ok('shared', True)
+            res.sample({'containers': [x[0] for x in conts], 'curve lists': 'f g f / g g / f f f f'})
         elif c['kind'] == 'big':
             # many events (a conversion that works through the events in blocks has seams at multiples of its block size)
             n = c['n']
